@@ -93,7 +93,7 @@ struct Run {
 	// statistics for the non-trivial rules
 	int n_redeliver = 0, n_red_cache = 0, n_red_qmem = 0, n_red_pending = 0, n_red_lastfrag = 0, n_red_case = 0, n_red_otheraddr = 0;
 	int n_multi3 = 0, n_nreq_ok = 0, n_badfrag = 0, n_dup_twice = 0, n_realsoon = 0, n_tun_via_held = 0, n_long = 0;
-	int n_cache_same = 0, n_trunc = 0, n_lost_answers = 0, n_giveup = 0, n_raw = 0, n_recycled = 0, n_recycled_data_before_n = 0, n_c2c = 0, n_red_altdomain = 0, n_qr = 0, n_hsreq = 0, n_wrap = 0, n_merge = 0, n_glue = 0, n_infra = 0;
+	int n_cache_same = 0, n_trunc = 0, n_lost_answers = 0, n_giveup = 0, n_raw = 0, n_recycled = 0, n_recycled_same_name = 0, n_recycled_data_before_n = 0, n_c2c = 0, n_red_altdomain = 0, n_qr = 0, n_hsreq = 0, n_wrap = 0, n_merge = 0, n_glue = 0, n_infra = 0;
 	uint64_t n_data_emits = 0;
 	std::map<int, std::pair<int, Bytes>> c2c_on_delivery;   // last-fragment query record -> (receiving peer, packet): registered in the receiver's stream when the server reads that query
 	uint64_t t_last_sent = 0;    // when the harness last handed a query to the network
@@ -577,6 +577,7 @@ struct Engine {
 	// slot back, and nothing the earlier session negotiated (fragment size, codecs, lazy mode, queued packets) may survive.
 	bool do_recycle(Peer &p)
 	{
+		uint64_t recycle_t0 = sim::W.now;
 		sim::W.run_for(61000000 + t.below(15000000));
 		absorb_new(p);
 		int old_user = p.sc.userid, oldF = p.F;
@@ -595,6 +596,24 @@ struct Engine {
 		p.st = Stream(); p.st.pkt = keep;          // packets read for the earlier session are not expected in the new one
 		p.prev_acks.clear(); p.flips = 0; p.frozen = 0; p.raw = false; p.saved_order.clear();
 		R.n_recycled++;
+		// The new session happens to send a ping whose name (user id, acknowledgement fields, cache-miss counter) equals one of the
+		// earlier session's last answered pings: one chance in 65536 for a real client, certain for this one.  Nothing the server
+		// remembered for the earlier session (answer cache, query memory) may answer it.
+		if (t.chance(1, 2)) {
+			std::vector<std::string> oldnames;
+			for (size_t i = R.q.size(); i-- > 0 && oldnames.size() < 6;) {
+				const QRec &q = R.q[i];
+				if (q.peer == peer_index(p) && !q.redelivery && q.t_sent < recycle_t0 && q.ack.user == old_user && !q.ack.is_data && !q.name.empty() && (q.name[0] == 'p' || q.name[0] == 'P') && q.answers > 0) oldnames.push_back(q.name);
+			}
+			if (!oldnames.empty() && old_user == p.sc.userid) {
+				std::string name = oldnames[t.below((uint32_t)oldnames.size())];
+				uint16_t id = p.sc.send_name(name);
+				record(p, id, false, -1, p.sc.addr, name, refproto::qtype_of(p.sc.qtype_k));
+				note(fmt("peer%d (new session) sends a ping named like one of the earlier session's: %.20s id=%u", peer_index(p), name.c_str(), id));
+				R.n_recycled_same_name++;
+				sim::W.run_for(30000);
+			}
+		}
 		note(fmt("peer%d silent for > 60 s, logs in again: user %d -> %d, F %d -> %d%s", peer_index(p), old_user, p.sc.userid, oldF, p.F, F0 ? "" : " (no size set)"));
 		return true;
 	}
